@@ -96,4 +96,17 @@ def doneAll (ms : List LMatcher) : Bool := ms.all LMatcher.done
 
 def newMatchers (fs : List Filter) : List LMatcher := fs.map fun f => { f := f }
 
+/-- the folds over several matchers and the counting step, as regenerated source text -/
+def matchersActualSource : List String :=
+  [Gen.matchersMatchBody, Gen.matchersLimitMatchBody, Gen.matchersDoneBody, Gen.matcherLimitMatchBody]
+
+/-- the text the hand-written folds follow: EVERY matcher is consulted (the method call is the left operand of `||`,
+    so it is evaluated even when an earlier matcher matched — each matching filter counts the event against its own
+    limit), `Done` is the conjunction, `LimitMatch` counts exactly the matches -/
+def matchersExpectedSource : List String :=
+  ["{ match := false for _, mm := range m { match = mm.Match(event) || match } return match }",
+   "{ match := false for _, mm := range m { match = mm.LimitMatch(event) || match } return match }",
+   "{ done := true for _, mm := range m { done = done && mm.Done() } return done }",
+   "{ match := m.Match(event) if match { m.cnt++ } return match }"]
+
 end Moc
